@@ -362,7 +362,12 @@ func (c17World) Run(prop string, ch *zsim.Choices, trace bool) *RunResult {
 		_ = s
 	}
 	s := zsim.Run(zsim.Config{MaxSteps: 3000000, Trace: trace}, ch, main)
-	return finish(s, ch, summary, nil)
+	return finish(s, ch, summary, func() *zsim.Violation {
+		if s.Stuck {
+			return viol("C17.termination", "decoding does not terminate: a task is blocked forever (e.g. on a lock an earlier, failed decode never released); tasks: %s", s.StuckInfo)
+		}
+		return nil
+	})
 }
 
 func totalityViolation(r decodeResult, input []byte, what string) *zsim.Violation {
